@@ -13,19 +13,19 @@ CLAIMED = {
             "Scoped: 'every byte string' is a pure-function quantifier that simulation does not cover; this decides only the part where a corrupted message is parsed on one task and used on others.",
             "DESIGN.md §3 C12"),
     "C33": ("exploration",
-            "deterministic simulation: macro-generated async proxy (task) and blocking proxy (simulator-driven real thread) against the macro-generated interface over a pair of real connections; typed model of the handlers",
-            "An async proxy on a task and a blocking proxy on a baton thread call every method of the corpus interface with seeded values, read and write its properties and receive its signal, under seeded schedules and read splits. Results, handler-side argument values, property read-after-write and both signal streams must match a typed model.",
-            "One hand-written interface/proxy pair: the space of interface definitions (the 'programs' quantifier) is not generated; this check contributes schedules, splits and the blocking wrapper.",
+            "deterministic simulation: macro-generated async proxy (task) and blocking proxy (simulator-driven real thread) against the macro-generated interfaces (one hand-written, 16 generated with methods, properties and signals of generated types) over a pair of real connections; typed model of the handlers",
+            "An async proxy on a task and a blocking proxy on a baton thread call every method of the corpus interface with seeded values, read and write its properties and receive its signal, under seeded schedules and read splits. Results, handler-side argument values, property read-after-write and both signal streams must match a typed model. The generated family adds: typed method round trips, persistent property proxies (cached and uncached, at the interface's own path and on a shared object where property names of different interfaces collide) with read-after-write through a model, and typed signals received by async streams and blocking iterators.",
+            "The generated family is fixed per build (macros expand at compile time; tools/gen_corpus.py --seed N regenerates it), so the 'programs' quantifier is sampled per build, not per run.",
             "DESIGN.md §3 C33"),
     "C25": ("exploration",
             "deterministic simulation: a real tracking client (snapshot + ordered signal replay) against at/remove histories incl. (re)registering the ObjectManager, with an operation racing the snapshot",
-            "A real client takes GetManagedObjects while a server operation may run concurrently, then applies the InterfacesAdded/Removed signals it received since, in order and idempotently - the weakest client that could possibly work. After every further operation its view must equal a fresh listing (properties included). Operations also run as concurrent pairs (add || add, add || remove, remove || snapshot, with an async yielding property getter); for those the oracle only asks that some order of the pair explains the client's final view.",
+            "A real client takes GetManagedObjects while a server operation may run concurrently, then applies the InterfacesAdded/Removed signals it received since, in order and idempotently - the weakest client that could possibly work. After every further operation its view must equal a fresh listing (properties included). Operations also run as concurrent pairs (add || add, add || remove, remove || snapshot, with an async yielding property getter); for those the oracle only asks that some order of the pair explains the client's final view. In a quarter of the runs the last at/remove is cancelled at a seeded await point: whether it took effect is open, the client must still track.",
             "Nested managers are excluded (the implementation documents them as unsupported); one root manager or two sibling managers are used.",
             "DESIGN.md §3 C25"),
     "C28": ("exploration",
-            "deterministic simulation: Get/GetAll/Set histories (sequential and pipelined) from a raw client against the real Properties interface; linearizability against a property-map model plus signal accounting",
-            "A raw client issues Get / GetAll / Set calls of every kind (right and wrong type, unknown, read-only, write-only, unknown interface) against properties of every access and emits-changed mode, one at a time or pipelined (Properties handlers run concurrently). The decoded history must be linearizable against a property map, and by quiescence the PropertiesChanged signals must be exactly those the successful Sets imply.",
-            "Hand-written corpus interface (6 properties), not generated per seed; error names are not judged.",
+            "deterministic simulation: Get/GetAll/Set histories (sequential and pipelined) from a raw client against the real Properties interface of a hand-written and of 16 generated interfaces; linearizability against a property-map model plus signal accounting",
+            "A raw client issues Get / GetAll / Set calls of every kind (right and wrong type, unknown, read-only, write-only, unknown interface) against properties of every access and emits-changed mode, one at a time or pipelined (Properties handlers run concurrently). Half of the runs target a generated interface (property types, access and emits-changed modes from the generator's table; values compared through a canonical rendering). The decoded history must be linearizable against a property map, and by quiescence the PropertiesChanged signals must be exactly those the successful Sets imply.",
+            "The generated corpus is fixed per build; error names are not judged; one known finding (variant-typed properties are flattened) is listed in known_findings.json.",
             "DESIGN.md §3 C28"),
     "C31": ("exploration",
             "deterministic simulation: scripted server object placing PropertiesChanged signals before / with / after the GetAll reply in seeded wire orders; cache compared with a fold over the received history",
@@ -38,13 +38,13 @@ CLAIMED = {
             "The bus timeline is conformant (the lookup reply carries the owner at its wire position); only timing and third-party traffic are adversarial.",
             "DESIGN.md §3 C32"),
     "C36": ("exploration",
-            "deterministic simulation: RequestName/ReleaseName histories against a conformant fake bus with seeded reply delays, genuine and forged ownership signals; name-status reference model",
-            "A real bus-mode connection (handshake + Hello) runs histories of request/release interleaved with bus-side events (another connection owning, releasing, taking over names; forged NameAcquired/NameLost from a peer). After each step the observable behaviour (local AlreadyOwner/InQueue answers without bus traffic vs. exactly one RequestName on the bus; release true iff held or queued) must equal the {none, owner, queued} model.",
+            "deterministic simulation: RequestName/ReleaseName histories against a conformant fake bus with seeded reply delays, genuine and forged ownership signals, direct RequestName calls, cancelled requests; name-status reference model",
+            "A real bus-mode connection (handshake + Hello) runs histories (half drawn blindly, half guided by a simulation of the bus) of request/release, direct RequestName calls that bypass the bookkeeping (so the bus itself answers AlreadyOwner later), and requests/releases cancelled at a seeded await point, interleaved with bus-side events (another connection owning, releasing, taking over names; forged NameAcquired/NameLost from a peer). After each step the observable behaviour (local AlreadyOwner/InQueue answers without bus traffic vs. exactly one RequestName on the bus; release true iff held or queued) must equal the {none, owner, queued} model.",
             "One operation at a time with quiescence in between; the fake bus follows the specification's name-queue rules.",
             "DESIGN.md §3 C36"),
     "C37": ("exploration",
-            "deterministic simulation: stream / proxy / signal-stream create-drop histories (concurrent pairs) against a fake bus that records AddMatch / RemoveMatch",
-            "Batches of one or two concurrent operations create and drop MessageStreams over overlapping rules, proxies and proxy signal streams (sync and async drops). After every batch the rules registered on the fake bus must equal the distinct signal rules with a live subscriber, each exactly once, with no duplicate AddMatch and no RemoveMatch of an unregistered rule.",
+            "deterministic simulation: stream / proxy / signal-stream create-drop histories (concurrent pairs, cancelled creations and drops) against a fake bus that records AddMatch / RemoveMatch",
+            "Batches of one or two concurrent operations create and drop MessageStreams over overlapping rules, proxies and proxy signal streams (sync and async drops); in a third of the runs one bus-talking operation is cancelled at a seeded await point. After every batch the rules registered on the fake bus must equal the distinct signal rules with a live subscriber, each exactly once, with no duplicate AddMatch and no RemoveMatch of an unregistered rule.",
             "Expected rule strings are produced with zbus's own MatchRule formatter (string identity is all that matters here).",
             "DESIGN.md §3 C37"),
     "C39": ("exploration",
@@ -64,12 +64,12 @@ CLAIMED = {
             "DESIGN.md §3 C24"),
     "C26": ("exploration",
             "deterministic simulation: seeded call mixes (valid, wrong path/interface/member/arguments, no-reply) in flight against the real object server and macro-generated handlers; replies decoded independently and compared with a table model",
-            "A raw peer keeps several calls in flight against the hand-written corpus interface registered at two paths and against 16 generated interfaces (about 90 methods whose signatures were drawn from the type grammar by tools/gen_corpus.py) (sync/async, &self/&mut self, fallible and custom-error handlers, handlers sleeping on the simulated clock). The handler log must equal exactly the matching calls, and each call must get exactly one reply with the right serial, signature and value or the right standard error.",
+            "A raw peer keeps several calls in flight against the hand-written corpus interface registered at two paths and against 16 generated interfaces (about 56 methods whose signatures were drawn from the type grammar by tools/gen_corpus.py; handlers log a canonical rendering of the arguments they received, compared with the oracle's rendering of what was sent; one run in 30 is a flood of 70..110 calls) (sync/async, &self/&mut self, fallible and custom-error handlers, handlers sleeping on the simulated clock). The handler log must equal exactly the matching calls, and each call must get exactly one reply with the right serial, signature and value or the right standard error.",
             "The generated corpus is fixed per build (macros expand at compile time), not per run; the no-reply flag on error paths and an extra argument to a zero-argument method are judged leniently.",
             "DESIGN.md §3 C26"),
     "C29": ("exploration",
             "deterministic simulation: bursts of calls to spawn=false handlers that yield or sleep on the simulated clock, under seeded scheduling",
-            "Bursts of calls to a spawn = false interface (handlers returning, yielding, sleeping simulated microseconds; &self and &mut self) mixed with calls to a spawning interface, with and without NO_REPLY_EXPECTED. The start/end log of the no-spawn handlers must show no overlap and wire order; every call must be answered exactly once by quiescence.",
+            "Bursts of calls to a spawn = false interface (handlers returning, yielding, sleeping simulated microseconds; &self and &mut self) mixed with calls to a spawning interface, with and without NO_REPLY_EXPECTED; one run in 25 is a flood of 70..140 calls, more than the dispatch queue holds. The start/end log of the no-spawn handlers must show no overlap and wire order; every call must be answered exactly once by quiescence.",
             "Wire order = the order the raw peer wrote the calls in.",
             "DESIGN.md §3 C29"),
     "C15": ("exploration",
@@ -88,18 +88,18 @@ CLAIMED = {
             "One unknown element per message; combinations of several unknown elements in one message are not generated.",
             "DESIGN.md §3 C13"),
     "C38": ("fault_enumeration",
-            "deterministic simulation with exhaustive fault placement: EOF / half-close EOF / ECONNRESET at every inbound byte offset and EPIPE at every early write call of scripted sessions, several seeded schedules each",
-            "For two fixed sessions (pending calls, unfiltered + rule stream, object server, then a late call and subscription) every inbound byte offset x {EOF whole socket, EOF inbound half, ECONNRESET} and the first 6 write calls x EPIPE are enumerated under 4 seeded schedule/read-split profiles each; thorough adds seeded random sessions. Oracle: streams yield exactly what was completely received before the failure, optionally one error, then end; pending calls complete accordingly; later work fails; quiescence with an open obligation is a hang.",
+            "deterministic simulation with exhaustive fault placement: EOF / half-close EOF / ECONNRESET at every inbound byte offset and EPIPE at every early write call, plus Connection::close() by the application at every message count, of scripted sessions, several seeded schedules each",
+            "For two fixed sessions (pending calls, unfiltered + rule stream, object server, then a late call and subscription) every inbound byte offset x {EOF whole socket, EOF inbound half, ECONNRESET} and the first 6 write calls x EPIPE and close() after n = 0..len messages are enumerated under 4 seeded schedule/read-split profiles each; thorough adds seeded random sessions. Oracle: streams yield exactly what was completely received before the failure, optionally one error, then end; pending calls complete accordingly; later work fails; quiescence with an open obligation is a hang.",
             "Fault positions are exhaustive for the fixed sessions; schedules per position are sampled.",
             "DESIGN.md §3 C38"),
     "C18": ("exploration",
-            "deterministic simulation: concurrent sender tasks under a seeded scheduler over a transport with partial writes, stalls, back-pressure and write errors; captured stream checked by an independent framer",
-            "2..6 sender tasks using every send API race for the write half while the simulated transport accepts partial writes, returns Pending between the pieces of one message, applies back-pressure and (separately) fails a write; the captured byte/fd stream must parse into exactly the sent messages, whole, fds at frame starts, per-sender order kept.",
+            "deterministic simulation: concurrent sender tasks under a seeded scheduler over a transport with partial writes, stalls, back-pressure, write errors and task cancellation; captured stream checked by an independent framer",
+            "2..6 sender tasks using every send API race for the write half while the simulated transport accepts partial writes, returns Pending between the pieces of one message, applies back-pressure and (separately) fails a write or cancels a sender task at a seeded await point; the captured byte/fd stream must parse into exactly the sent messages, whole, fds at frame starts, per-sender order kept.",
             "Interleaving granularity is the task poll plus the transport's own Pending points (incl. a seeded Pending right after a successful write); preemption inside async-lock is not explored.",
             "DESIGN.md §3 C18"),
     "C19": ("exploration",
-            "deterministic simulation: concurrent callers vs. a scripted peer that reorders, delays, duplicates and forges replies; EOF/reset/crash faults; timeouts on the discrete-event clock",
-            "1..5 caller tasks x 1..3 calls against a raw peer deciding per call return/error/never, delay, duplicates, stray replies and noise, with optional method timeout (simulated clock) and link faults at byte offsets / peer crash at a time; per call the oracle demands its own token back, or an error exactly when faults or timeouts justify one, and nothing pending at quiescence once the link died.",
+            "deterministic simulation: concurrent callers vs. a scripted peer that reorders, delays, duplicates and forges replies; EOF/reset/crash faults, caller cancellation; timeouts on the discrete-event clock",
+            "1..5 caller tasks (sometimes 9..14, more than the method-return channel holds) x 1..3 calls against a raw peer deciding per call return/error/never, delay, duplicates, stray replies and noise, with optional method timeout (simulated clock) and link faults at byte offsets / peer crash at a time / a caller task cancelled at a seeded await point; per call the oracle demands its own token back, or an error exactly when faults or timeouts justify one, and nothing pending at quiescence once the link died.",
             "A reply that arrives 'before the caller waits' is produced by the seeded Pending-after-write transport behaviour and by task stalls, not by true parallelism.",
             "DESIGN.md §3 C19"),
     "C16": ("exploration",
